@@ -36,11 +36,12 @@ PROPS['C01']={
  ]}
 
 PROPS['C06']={
- 'bounds_statement':'in_toto_verify from MIR with the clock as a symbolic instant: expiry and verification instants are unconstrained 64+32-bit vectors; top level and one level of delegation.',
+ 'bounds_statement':'in_toto_verify from MIR with the clock as a symbolic instant: expiry and verification instants are unconstrained 64+32-bit vectors; top level and one level of delegation; and a second verification in the same process at a later instant (state that outlives a call, e.g. a cached clock reading, is visible to it).',
  'assumptions':PIPE_ASSUME+['chrono::DateTime<Utc> ordering = lexicographic (seconds, nanoseconds)','chrono text parsing/printing modelled on ghost strings: parse_from_rfc3339(text(local,offset)) = (local - offset, offset); with_timezone(Utc) keeps the instant; naive_local = instant + offset; to_rfc3339_opts(Secs) truncates to whole seconds; validated natively on sampled instants/offsets'],
  'obligations':[
    {'name':'expiry_top','module':'harness.C06','cls':'Expiry','quick':{},'thorough':{},'validate':{'quick':2,'thorough':2}},
    {'name':'expiry_sub','module':'harness.C06','cls':'Expiry','quick':{'sub':True},'thorough':{'sub':True},'validate':{'quick':3,'thorough':3}},
+   {'name':'expiry_second_call','module':'harness.C06','cls':'ExpirySecondCall','quick':{},'thorough':{},'validate':{'quick':2,'thorough':2}},
    {'name':'parse_datetime','module':'harness.C06','cls':'ParseInstant','quick':{},'thorough':{},'validate':{'quick':2,'thorough':2}},
  ]}
 
